@@ -2,7 +2,8 @@
    it received, in the order received (C05's forwarding theorem, Lifecycle/ForwardProofs.v), so the file written is
    write_all of the messages read. *)
 From Coq Require Import List NArith Bool Lia.
-From AdltV Require Import Base.Res Base.MachInt Dlt.Frame Dlt.Iter Dlt.Write Dlt.WritePipeline.
+From AdltV Require Import Base.Res Base.MachInt Dlt.Frame Dlt.Iter Dlt.Write Dlt.WriteProofs Dlt.WritePipeline.
+From AdltV Require Import Reader.LowMark Dlt.Chunk Dlt.ChunkProofs.
 From AdltV Require Lifecycle.Model Lifecycle.ForwardProofs.
 Import ListNotations.
 Open Scope N_scope.
@@ -65,4 +66,47 @@ Theorem convert_o_is_write_all data ms st rest :
 Proof.
   intros Hr Hidx. unfold convert_o. rewrite Hr. rewrite lifecycle_stage_id; [reflexivity|].
   rewrite Hidx. apply NoDup_consecutive.
+Qed.
+
+(* the reader wiring of convert.rs does not change what is exported: every window the LowMarkBufReader shows holds a whole
+   maximum-sized message plus the 4 look-ahead bytes (or everything up to the end of the file) *)
+Theorem convert_o_rd_eq data sched :
+  wf_bytes data -> nlen data <= usizemax -> convert_o_rd data sched = convert_o data.
+Proof.
+  intros Hwf Hlen.
+  assert (H := iter_chunk_independent data sched BUFREADER_CAPACITY CONVERT_LOW_MARK 0 Hwf).
+  specialize (H ltac:(vm_compute; discriminate) ltac:(vm_compute; discriminate) ltac:(vm_compute; discriminate) Hlen).
+  unfold convert_o_rd, convert_o.
+  destruct (run_iter_rd 0 BUFREADER_CAPACITY CONVERT_LOW_MARK data sched) as [[[ms st] r]|s|];
+    destruct (run_iter 0 data) as [[[ms' st'] r']|s'|]; cbn [iter_result] in H; try discriminate; inversion H; reflexivity.
+Qed.
+
+Lemma wf_msgb_sound m : wf_msgb m = true -> wf_msg m.
+Proof.
+  unfold wf_msgb, wf_msg. rewrite !andb_true_iff. intros [[[[[H1 H2] H3] H4] H5] H6].
+  apply N.leb_le in H1. apply N.eqb_eq in H2. apply N.ltb_lt in H3. apply N.ltb_lt in H6. apply Bool.eqb_prop in H5.
+  split; [exact H1|]. split; [exact H2|]. split; [exact H3|]. split.
+  - intros Hn. rewrite Hn in H4. cbn [orb] in H4. apply N.eqb_eq in H4. exact H4.
+  - split; [exact H5|].
+    exists (m_reception_us m / 1000000), (m_reception_us m mod 1000000). split; [exact H6|]. split.
+    + apply N.mod_lt. discriminate.
+    + rewrite N.mul_comm. apply N.div_mod. discriminate.
+Qed.
+
+Lemma Forall2_len {A B} (R : A -> B -> Prop) l l' : Forall2 R l l' -> length l = length l'.
+Proof. induction 1; cbn [length]; congruence. Qed.
+
+(* a file that is the writer's output for messages satisfying the invariant (a file in normal form): reading it gives
+   the re-read messages, and `convert -o` writes the file again *)
+Theorem convert_o_normal_form ms :
+  Forall wf_msg ms -> N.of_nat (length ms) <= u32max ->
+  exists bytes st,
+    write_all ms = Ok (WOk bytes) /\ run_iter 0 bytes = Ok (reparsed_list 0 ms, st, []) /\
+    Forall2 same_fields ms (reparsed_list 0 ms) /\ convert_o bytes = Ok (WOk bytes).
+Proof.
+  intros Hwf Hn.
+  destruct (export_roundtrip 0 ms Hwf ltac:(lia)) as (bytes & st & Hw & Hr & Hf & _ & _ & _ & Hw2).
+  exists bytes, st. repeat split; try assumption.
+  rewrite (convert_o_is_write_all bytes (reparsed_list 0 ms) st [] Hr); [exact Hw2|].
+  rewrite <- (Forall2_len _ _ _ Hf). unfold reparsed_list. rewrite expect_list_indices. unfold segs_of. rewrite map_length. reflexivity.
 Qed.
